@@ -104,7 +104,9 @@ func refDecode(b []byte) refAddr {
 			return r
 		}
 		if odd != "" {
-			return outside(odd)
+			o := outside(odd)
+			o.typ, o.net = t, n // the prefix rule still applies to such an address
+			return o
 		}
 		r.ptr = &p
 	}
@@ -262,6 +264,10 @@ func refParseText(s string) refText {
 		}
 		r := refDecode(raw)
 		out := refText{refAddr: r, bytes: raw, bech32: true}
+		if r.verdict == vOutside && !r.byron && (r.why == "nonminimal-pointer" || r.why == "overflowing-pointer") && hrp != expectedHRP(r.typ, r.net) {
+			out.refAddr = reject("hrp-mismatch")
+			return out
+		}
 		if r.verdict != vAccept {
 			if r.verdict == vReject {
 				out.why = "bech32:" + r.why
